@@ -335,6 +335,49 @@ def build(tier="quick", seed=0):
             return Result("C06.exec_sites", "undecided", f"new dynamic-code site(s) {sorted(extra)}: whether text from a definition can reach them is not decided by this pack")
         return Result("C06.exec_sites", "proved", paths=len(found))
 
+    # ---- 4.1 field type texts that are NOT field types although they occur in the whitelist's name space: package names (net, net.ipv4, ...) in scalar and list form
+    for ttext in ("net", "net[]", "net.ipv4", "net.ipv4[]", "net.tcp[]", "net.udp[]", "net.ip[]", "fieldtypes[]", "net.[]", ".string", "string.", "net..ipaddress"):
+        for entry in ("api", "stream", "json"):
+            name = f"C06.type[{entry}, field type {ttext!r}]"
+
+            def th(ttext=ttext, entry=entry):
+                try:
+                    d = ENTRIES[entry]("c06/t", [(ttext, "a")])
+                except PyRaise as e:
+                    return "rejected", e.cls_name
+                return "accepted", repr(d)
+
+            pack.add(Obligation(name, lambda tier, name=name, th=th, ttext=ttext: prove_paths(name, th, lambda p, ttext=ttext: (p.value[0] == "rejected", f"a definition whose field type is {ttext!r} (not on the whitelist) was accepted: {p.value[1]}")),
+                                replay=lambda w, entry=entry, ttext=ttext: {"call": "c06_definition", "args": {"entry": entry, "name": "c06/t", "fields": [[ttext, "a"]]}}, functions=FU_GATE, mode="representative non-types from the whitelist's name space"))
+
+    # ---- 4.2 a field name that occurs twice: every occurrence's type is checked (a bad type cannot hide behind a later, valid occurrence)
+    for fields in ([("os.system", "a"), ("string", "a")], [("string", "a"), ("__import__('os')", "a"), ("string", "a")], [("nosuchtype", "b"), ("varint", "a"), ("string", "b")]):
+        for entry in ("api", "stream", "json"):
+            name = f"C06.dup[{entry}, {fields}]"
+
+            def th(fields=fields, entry=entry):
+                try:
+                    d = ENTRIES[entry]("c06/dup", list(fields))
+                except PyRaise as e:
+                    return "rejected", e.cls_name
+                return "accepted", [tuple(f) for f in it.call(it.getattr_(d, "get_field_tuples"), [], {})]
+
+            pack.add(Obligation(name, lambda tier, name=name, th=th, fields=fields: prove_paths(name, th, lambda p, fields=fields: (p.value[0] == "rejected", f"the definition {fields} (a field type outside the whitelist) was accepted: {p.value[1]}")),
+                                replay=lambda w, entry=entry, fields=fields: {"call": "c06_definition", "args": {"entry": entry, "name": "c06/dup", "fields": [list(f) for f in fields]}}, functions=FU_GATE, mode="representative definitions with a repeated field name"))
+
+    # ... and when all occurrences are valid: the record has exactly the declared fields (or the definition is rejected)
+    def th_dup_valid():
+        try:
+            D = it.call(RD, ["c06/dup", [("string", "a"), ("varint", "a"), ("string", "b")]], {})
+        except PyRaise as e:
+            return "rejected", None, None
+        slots = [s_ for s_ in it.getattr_(it.getattr_(D, "recordType"), "__slots__") if s_ not in RESERVED]
+        return "accepted", slots, [n_ for _, n_ in it.call(it.getattr_(D, "get_field_tuples"), [], {})]
+
+    pack.add(Obligation("C06.dup.fields[the same field name declared twice with valid types]", lambda tier: prove_paths("C06.dup.fields[the same field name declared twice with valid types]", th_dup_valid,
+                        lambda p: (p.value[0] == "rejected" or p.value[1] == p.value[2], f"accepted; the record has the fields {p.value[1]}, the descriptor declares {p.value[2]}")),
+                        replay=lambda w: {"call": "c06_dup_fields", "args": {}}, functions=FU_GATE, mode="the representative definition"))
+
     # ---- 4a. a definition that arrives WITHOUT a field list (fields = nil / null): its name text must still be a type name - it is never taken for the
     #          deprecated one-string definition form ("name\ntype field") and parsed
     for entry in ("stream", "json"):
